@@ -53,6 +53,8 @@ func (c *tdCall) finished() bool {
 type tdCtx struct {
 	s       *sim
 	started bool // the scenario started the blocked callers itself
+	recPre  bool // record also the callers that returned before the injection (scenario t1-exhausted)
+	downAt  []int // sides that must be down before the injection (the handshake failed: the connect call closed them)
 	calls   []*tdCall
 	writers [2]*tdCall
 	shut    *tdCall
@@ -144,8 +146,10 @@ func (x *tdCtx) startShutdown(side int) {
 			c.out = "nil"
 		case errors.Is(err, ErrShutdownNonEstablished):
 			c.out, c.detail = "notest", err.Error()
+		case errors.Is(err, ErrShutdownIncomplete):
+			c.out, c.detail = "err", err.Error() // torn down before the shutdown sequence completed
 		default:
-			c.out, c.detail = "err", err.Error()
+			c.out, c.detail = "other", err.Error()
 		}
 	})
 }
@@ -283,11 +287,16 @@ func tdScenarios() []tdScenario {
 			s.settle()
 			tdPump(x, ev, 30, 100*time.Millisecond, 2, true)
 		}},
-		// The model's refutation witness (coq/proofs/TeardownT1Proofs.v): every INIT is lost until T1-init
-		// gives up and the connect call returns the handshake error; then the last INIT is answered after
-		// all and the handshake completes with nobody waiting for it.
+		// D27 (fixed by aeda016): every INIT is lost until T1-init gives up and the connect call gets the
+		// handshake error; it now closes the association, so the callers blocked on it return and a late
+		// INIT-ACK / COOKIE-ACK finds nobody.  (Before the fix the handshake completed late and
+		// completeHandshake blocked for ever under a.lock: the model's former refutation witness.)
 		{name: "t1-exhausted", opts: tdOpts(false), handshake: true, sides: []int{0}, minK: 1, failKey: "t1-late-handshake-stuck", run: func(x *tdCtx, ev func() bool) {
 			s := x.s
+			x.startBlockedCallers(0)
+			x.startBlockedCallers(1)
+			x.started, x.recPre = true, true
+			s.settle()
 			for i := 0; i < 600 && !s.hsFinished(0); i++ {
 				for len(s.flight[0]) > 1 {
 					s.drop(0, 0)
@@ -301,15 +310,11 @@ func tdScenarios() []tdScenario {
 				s.fail("C09", fmt.Sprintf("(t1-scenario-broken) T1-init did not give up: finished=%v err=%v", s.hsFinished(0), s.hsErr[0]))
 				return
 			}
-			// callers must exist before a.lock is held for good
-			x.startBlockedCallers(0)
-			x.startBlockedCallers(1)
-			x.started = true
-			s.settle()
+			x.downAt = []int{0}
 			if !ev() {
 				return
 			}
-			tdPump(x, func() bool { return true }, 10, 0, 0, false) // late INIT, INIT-ACK, COOKIE-ECHO, COOKIE-ACK
+			tdPump(x, func() bool { return true }, 10, 0, 0, false) // the late INIT: INIT-ACK goes to a closed conn
 		}},
 	}
 }
@@ -502,19 +507,28 @@ func tdRunCrashPoint(t *testing.T, sc tdScenario, k int, inj string, side int, r
 		var connect [2]*tdCall
 		for sd := 0; sd < 2; sd++ {
 			sd := sd
-			if !s.hsFinished(sd) {
+			if !s.hsFinished(sd) || x.recPre {
 				connect[sd] = &tdCall{kind: "connect", side: sd, done: s.hsDone[sd]}
 				x.calls = append(x.calls, connect[sd])
 			}
 		}
 		for _, c := range x.calls {
-			if c.finished() {
+			if c.finished() && !x.recPre {
 				c.pre = true
 			}
 			c.atInj = c.callNo
 		}
 		a := s.assoc[side]
 		peer := 1 - side
+		// ---- a failed handshake must have taken the association down already
+		for _, sd := range x.downAt {
+			b := s.assoc[sd]
+			if gs, where := tdGoroutines(b); len(gs) > 0 || !tdTimersClosed(b) || !tdChanClosed(b.readLoopCloseCh) || !tdChanClosed(b.closeWriteLoopCh) {
+				res.mu.Lock()
+				res.fails = append(res.fails, fmt.Sprintf("SIMFAIL prop=C09 the association is still running after the connect call returned the handshake error %v: goroutines=%s (%s) | crashpoint=%s", s.hsErr[sd], where, sc.failKey, res.label))
+				res.mu.Unlock()
+			}
+		}
 		// ---- the injection
 		var injDone chan struct{}
 		switch inj {
@@ -579,7 +593,14 @@ func tdRunCrashPoint(t *testing.T, sc tdScenario, k int, inj string, side int, r
 					fail("caller-blocked-"+c.kind, fmt.Sprintf("%s on side %d (%s side, phase %s) did not return within %v after %s", c.kind, sd, role, phase[sd], tdBound, minj))
 				}
 				res.mu.Lock()
-				res.lines = append(res.lines, fmt.Sprintf("out %s %s %s %s %s %d", role, phase[sd], minj, c.kind, out, cause))
+				sdc := -1
+				if c.kind == "shutdown" {
+					b := s.assoc[sd]
+					b.lock.RLock()
+					sdc = b2i(b.shutdownCompleted)
+					b.lock.RUnlock()
+				}
+				res.lines = append(res.lines, fmt.Sprintf("out %s %s %s %s %s %d %d", role, phase[sd], minj, c.kind, out, cause, sdc))
 				res.mu.Unlock()
 			}
 		}
